@@ -128,13 +128,17 @@ structure Entry where
   keep : Bool       -- dag.data (boolean)
 deriving Repr, DecidableEq
 
+/-- does the loop body for `value` zero this entry? (`order[dag.row] == value` [`& order[dag.col] <= value`]) -/
+def kills (order : List Int) (value : Int) (e : Entry) : Bool :=
+  if value < 0 then order.getD e.row 0 == value
+  else order.getD e.row 0 == value && decide (order.getD e.col 0 ≤ value)
+
+def stepE (order : List Int) (value : Int) (e : Entry) : Entry :=
+  if kills order value e then { e with keep := false } else e
+
 /-- body of `for value in np.unique(order)` -/
 def dagStep (order : List Int) (value : Int) (es : List Entry) : List Entry :=
-  es.map fun e =>
-    if value < 0 then
-      (if order.getD e.row 0 == value then { e with keep := false } else e)
-    else
-      (if order.getD e.row 0 == value && decide (order.getD e.col 0 ≤ value) then { e with keep := false } else e)
+  es.map (stepE order value)
 
 def dagLoop (order : List Int) (values : List Int) (es : List Entry) : List Entry :=
   values.foldl (fun es v => dagStep order v es) es
